@@ -26,6 +26,9 @@ var c07templates = [][]string{
 	/* 10 */ {"local \x01 = 1\nfor \x02, \x03 in ipairs(\x04) do g = \x02 end\n"},
 	/* 11 */ {"for \x01, \x02 in pairs(\x03) do g = \x01 end\n"},
 	/* 12 */ {"local \x01 = 1\nlocal \x02 = \x01\nlocal \x03 = function() \x04 = 1 end\ng = \x02\n"},
+	/* 13 */ {"local \x01 = 1\ng = \x01\nlocal \x02 = 2\nlocal \x03 = 3\nh = \x03\n"},
+	/* 14 */ {"local \x01 = 1\ng = \x01\nlocal \x02 = 2\n\x02 = 3\n"},
+	/* 15 */ {"do\n local \x01 = 1\n g = \x01\n local \x02 = 2\nend\nlocal \x03 <close> = 1\nlocal \x04 = 2\n"},
 }
 
 type c07diag struct {
@@ -70,11 +73,14 @@ func VerifRun_C07() {
 	p := CreateAllProject(files, nil, nil)
 	p.HandleCheck()
 	errs := p.GetAllFileErrorInfo()
-	var got []c07diag
+	var got, got17 []c07diag
 	for fi, f := range files {
 		for _, e := range errs[f] {
 			if e.ErrType == common.CheckErrorNoDefine || e.ErrType == common.CheckErrorCycleDefine || e.ErrType == common.CheckErrorLocalNoUse {
 				got = append(got, c07diag{int(e.ErrType), fi, e.Loc})
+			}
+			if e.ErrType == common.CheckErrorNoUseAssign {
+				got17 = append(got17, c07diag{17, fi, e.Loc})
 			}
 		}
 	}
